@@ -5,12 +5,15 @@ import St4sd.Lemmas.C14Escape
 import St4sd.Lemmas.C14Status
 import St4sd.Lemmas.C14Conc
 import St4sd.Lemmas.C14Sched
+import St4sd.Lemmas.C14Typed
 /-!
 # C14 — Experiment state files are updated atomically and read back faithfully
 
 Part 1 (atomicity): statements over *all* traces, all numbers and sizes of writes, all crash points.
 Part 2 (fidelity): the status file encoding round-trips, for every history of updates.
 Part 3 (several writers): statements over *all* interleavings of concurrent updates of one file.
+Part 4 (typed values): the YAML/JSON state files hold typed values; read-back is exact (structural) equality, for every
+history; a write-skipping optimisation is sound iff its comparison is structural (Python's `==` is not).
 -/
 namespace St4sd.C14
 open St4sd.FsAtomic
@@ -389,5 +392,121 @@ example : concSafe ['t'] [.openW 0 ['x'], .openW 1 ['x']] = false := by decide
 example : concSafe ['t'] [.openW 0 ['x'], .write 0 ['a'], .rename ['x'] ['t']] = false := by decide
 
 end Concurrent
+
+/-- the one-pass computation of the crash states the driver uses is `crashStates` -/
+theorem crashStates_eq_scan (tr : List Op) (fs : Fs) (t : Path) : scanStates tr fs t = crashStates tr fs t := by
+  induction tr generalizing fs with
+  | nil => simp [scanStates, crashStates, run]
+  | cons o tr ih =>
+    simp only [scanStates, crashStates, List.length_cons] at ih ⊢
+    rw [List.range_succ_eq_map, List.map_cons, List.map_map, ih]
+    simp [run, Function.comp_def]
+
+private theorem find?_congr' {α : Type} (l : List α) (p q : α → Bool) (h : ∀ a ∈ l, p a = q a) : l.find? p = l.find? q := by
+  induction l with
+  | nil => rfl
+  | cons a l ih =>
+    simp only [List.find?_cons, h a (List.mem_cons_self ..)]
+    rw [ih (fun b hb => h b (List.mem_cons_of_mem _ hb))]
+
+/-- … and the first unsafe crash point read off that list is `firstUnsafe` -/
+theorem firstUnsafe_eq_in (tr : List Op) (fs : Fs) (t : Path) :
+    firstUnsafeIn (crashStates tr fs t) (fs t) (run tr fs t) = firstUnsafe tr fs t := by
+  unfold firstUnsafeIn firstUnsafe
+  have hl : (crashStates tr fs t).length = tr.length + 1 := by simp [crashStates]
+  rw [hl]
+  apply find?_congr'
+  intro n hn
+  have hlt : n < tr.length + 1 := List.mem_range.1 hn
+  simp [crashStates, hlt]
+
+section Typed
+open St4sd.TypedStore
+
+/-- The update the code performs (dump the new document, rename it over the target) stores the new value whatever the
+file held: after every non-empty history of updates, from every initial content, the file holds exactly
+(structurally: type tags included) the value written last. -/
+theorem typed_store_reads_back_last (init : Stored) (h : List YVal) (v : YVal) :
+    runStore writeAlways init (h ++ [v]) = some v := by
+  rw [runStore_append]; rfl
+
+/-- … and a reader between two updates always sees exactly the value of the latest update. -/
+theorem typed_store_every_read_exact (init : Stored) (h : List YVal) :
+    readBacks writeAlways init h = h.map some := by
+  induction h generalizing init with
+  | nil => rfl
+  | cons v h ih => simp [readBacks, writeAlways, ih]
+
+/-- On disk: whatever operations preceded it (any number of earlier updates, complete or not), an atomic update whose
+chunks are the rendering of `v` leaves a target whose parse is exactly `v`, provided the parser inverts the renderer
+(PyYAML / json as libraries: trusted, and exercised on every run). -/
+theorem typed_update_on_disk_reads_back (render : YVal → Content) (parse : Content → Option YVal)
+    (hrt : ∀ v, parse (render v) = some v) (pre : List Op) (fs : Fs) (tmp t : Path) (hne : tmp ≠ t)
+    (v : YVal) (chunks : List Content) (hch : flatten chunks = render v) :
+    (run (pre ++ writerTrace tmp t chunks) fs t).bind parse = some v := by
+  rw [run_append, writer_final tmp t chunks _ hne, hch]
+  simpa using hrt v
+
+/-- Skipping the write when the file already holds a *structurally* equal value changes nothing: an identical rewrite
+may be dropped. -/
+theorem structural_skip_harmless (init : Stored) (h : List YVal) :
+    runStore (writeSkip YVal.beq) init h = runStore writeAlways init h := by
+  induction h generalizing init with
+  | nil => rfl
+  | cons v h ih =>
+    have : writeSkip YVal.beq init v = writeAlways init v := by
+      cases init with
+      | none => rfl
+      | some w =>
+        simp only [writeSkip, writeAlways]
+        split
+        · next hb => rw [(YVal.beq_iff w v).1 hb]
+        · rfl
+    simp only [runStore, List.foldl_cons] at ih ⊢
+    rw [this]; exact ih _
+
+/-- A write-skipping optimisation "do not rewrite when `eq loaded new`" keeps the read-back clause for every history
+**iff** `eq` only identifies structurally equal values. -/
+theorem skip_sound_iff_structural (eq : YVal → YVal → Bool) :
+    (∀ (init : Stored) (h : List YVal) (v : YVal), runStore (writeSkip eq) init (h ++ [v]) = some v) ↔
+      (∀ a b, eq a b = true → a = b) := by
+  constructor
+  · intro hs a b hab
+    have := hs (some a) [] b
+    simp [runStore, writeSkip, hab] at this
+    exact this
+  · intro hst init h v
+    rw [runStore_append]
+    cases hr : runStore (writeSkip eq) init h with
+    | none => rfl
+    | some w =>
+      simp only [writeSkip]
+      split
+      · next hb => rw [hst w v hb]
+      · rfl
+
+/-- Python's `==` identifies every pair of structurally equal values … -/
+theorem pyEq_of_eq (a b : YVal) (h : a = b) : pyEq a b = true := h ▸ pyEq_refl a
+
+/-- … and more (`3 == 3.0`, `1 == True`, `0 == False == 0.0 == -0.0`, also inside sequences and mappings): it is not
+structural, -/
+theorem pyEq_not_structural : ¬ ∀ a b, pyEq a b = true → a = b := by
+  intro h
+  have := h (.int 3) (.float 3 0) (by decide)
+  cases this
+
+/-- hence an update that skips the write when `yaml_load(existing) == data` violates the read-back clause. -/
+theorem pyEq_skip_unsound :
+    ¬ ∀ (init : Stored) (h : List YVal) (v : YVal), runStore (writeSkip pyEq) init (h ++ [v]) = some v :=
+  fun h => pyEq_not_structural ((skip_sound_iff_structural pyEq).1 h)
+
+example : pyEq (.int 1) (.bool true) = true ∧ pyEq (.float 1 0) (.bool true) = true ∧ pyEq (.int 0) (.fspec 0) = true ∧
+    pyEq (.float 5 1) (.float 10 2) = true ∧ pyEq (.int 2) (.float 5 1) = false ∧ pyEq (.str [49]) (.int 1) = false ∧
+    pyEq (.null) (.bool false) = false ∧ pyEq (.fspec 1) (.fspec 2) = false := by decide
+example : pyEq (.map (.cons (.str [100]) (.cons (.seq (.cons (.int 3) (.cons (.bool false) .nil))) .nil)))
+    (.map (.cons (.str [100]) (.cons (.seq (.cons (.float 3 0) (.cons (.int 0) .nil))) .nil))) = true := by decide
+example : runStore writeAlways none [.int 3, .float 3 0] = some (.float 3 0) := by decide
+
+end Typed
 
 end St4sd.C14
